@@ -341,6 +341,14 @@ Proof.
   unfold nodd in Hy. rewrite Hy. exact IH.
 Qed.
 
+Lemma fold_push_pop_rev : forall r xs stk, Forall nodd xs ->
+  fold_left (push r) (repeat s_dotdot (length xs)) (rev xs ++ stk) = stk.
+Proof. intros r xs stk H. rewrite <- (rev_length xs). apply fold_push_pop. now apply Forall_rev. Qed.
+
+Lemma fold_push_pop_all : forall r xs, Forall nodd xs ->
+  fold_left (push r) (repeat s_dotdot (length xs)) (rev xs) = [].
+Proof. intros r xs H. rewrite <- (app_nil_r (rev xs)). now apply fold_push_pop_rev. Qed.
+
 Lemma map_const_repeat : forall (b' : list str), map (fun _ => s_dotdot) b' = repeat s_dotdot (length b').
 Proof. induction b' as [|x b' IH]; [reflexivity|]. cbn [map length repeat]. now rewrite IH. Qed.
 
@@ -375,6 +383,37 @@ Qed.
 Lemma forallb_head_dd : forall x l, is_dotdot x = true -> forallb (fun c => negb (is_dotdot c)) (x :: l) = false.
 Proof. intros x l H. cbn [forallb]. now rewrite H. Qed.
 
+Lemma intercalate_snoc : forall l z, l <> [] -> intercalate (l ++ [z]) = intercalate l ++ sl :: z.
+Proof.
+  induction l as [|u l IH]; intros z Hne; [congruence|]. destruct l as [|v l'].
+  - reflexivity.
+  - change (intercalate ((u :: v :: l') ++ [z])) with (u ++ sl :: intercalate ((v :: l') ++ [z])).
+    rewrite IH by discriminate.
+    change (intercalate (u :: v :: l')) with (u ++ sl :: intercalate (v :: l')).
+    now rewrite <- app_assoc.
+Qed.
+
+(** a reference "../../." : the trailing "." element disappears on Join *)
+Lemma join2_dot : forall root dds, Forall good dds -> dds <> [] ->
+  comps (join2 root (render_rel (dds ++ [s_dot]))) = comps root ++ dds /\
+  rooted (join2 root (render_rel (dds ++ [s_dot]))) = rooted root.
+Proof.
+  intros root dds Hg Hne.
+  assert (Er : render_rel (dds ++ [s_dot]) = render_rel dds ++ sl :: s_dot).
+  { unfold render_rel. destruct dds as [|u l]; [congruence|]. rewrite <- app_comm_cons.
+    rewrite app_comm_cons. now apply intercalate_snoc. }
+  destruct (render_rel_shape dds Hg) as (y & r0 & Ey & Hy).
+  rewrite Er. destruct root as [|y0 root'].
+  - assert (Ej : join2 [] (render_rel dds ++ sl :: s_dot) = render_rel dds ++ sl :: s_dot) by reflexivity.
+    rewrite Ej. split.
+    + rewrite comps_app, comps_render_rel by assumption. now rewrite app_nil_r.
+    + rewrite Ey. cbn [app rooted]. now apply N.eqb_neq.
+  - assert (Ej : join2 (y0 :: root') (render_rel dds ++ sl :: s_dot) =
+                 (y0 :: root') ++ sl :: (render_rel dds ++ sl :: s_dot)) by (rewrite Ey; reflexivity).
+    rewrite Ej. split; [|reflexivity].
+    rewrite comps_app, comps_app, comps_render_rel by assumption. now rewrite app_nil_r.
+Qed.
+
 Theorem put_rejected_outside : forall root p s,
   put true root p = Some s -> put false root p = None -> inside root (resolved root s) = false.
 Proof.
@@ -387,45 +426,28 @@ Proof.
   pose proof (clean_comps_shape_r (rooted p) (comps p)) as HsT.
   assert (HgB : Forall good (clean_comps (rooted root) (comps root))) by (apply clean_comps_Forall, comps_good).
   assert (HgT : Forall good (clean_comps (rooted p) (comps p))) by (apply clean_comps_Forall, comps_good).
-  set (B := clean_comps (rooted root) (comps root)) in *.
-  set (T := clean_comps (rooted p) (comps p)) in *.
+  assert (HstkB : fold_left (push (rooted root)) (comps root) [] = rev (clean_comps (rooted root) (comps root))).
+  { unfold clean_comps. now rewrite rev_involutive. }
+  unfold inside, resolved, clean. cbn [cp_rooted cp_comps].
+  remember (clean_comps (rooted root) (comps root)) as B eqn:HB.
+  remember (clean_comps (rooted p) (comps p)) as T eqn:HT.
   destruct (Bool.eqb (rooted root) (rooted p)) eqn:Err; [|discriminate]. cbn [negb] in Er.
   apply Bool.eqb_prop in Err. rewrite <- Err in HsT.
-  assert (HstkB : fold_left (push (rooted root)) (comps root) [] = rev B).
-  { subst B. unfold clean_comps. now rewrite rev_involutive. }
-  unfold inside, resolved, clean. cbn [cp_rooted cp_comps]. fold B.
   destruct (negb (rooted p) && is_nil T && negb (is_nil B)) eqn:Ec.
-  - (* the target cleans to "." : reference "../.. /." climbs to the empty relative path *)
-    apply andb_prop in Ec. destruct Ec as [Ec EB]. apply andb_prop in Ec. destruct Ec as [Erp ET].
-    destruct B as [|x B'] eqn:EBv; [discriminate|]. cbn [strip_common] in Er.
-    inversion HgB as [|? ? [_ Hk] _]; subst. rewrite (keep_not_dot x Hk) in Er.
+  - (* the target cleans to "." : the reference "../.. /." climbs to the empty relative path *)
+    destruct B as [|x B']; [apply andb_prop in Ec; destruct Ec as [_ Ec]; discriminate|].
+    cbn [strip_common] in Er.
+    assert (Hk : str_eqb x s_dot = false) by (inversion HgB as [|? ? [_ Hk] _]; now apply keep_not_dot).
+    rewrite Hk in Er.
     destruct (starts_dotdot (x :: B')) eqn:Esb; [discriminate|]. injection Er as <-.
     assert (HndB : Forall nodd (x :: B')).
     { destruct HsB as (ds & ns & E & Hds & Hns & _). apply (suffix_nodd ds ns [] (x :: B')); auto. }
-    assert (Hcomps : comps (join2 root (render_rel (map (fun _ => s_dotdot) (x :: B') ++ [s_dot]))) =
-                     comps root ++ map (fun _ => s_dotdot) (x :: B')).
-    { set (dd := map (fun _ : str => s_dotdot) (x :: B')).
-      assert (Hgd : Forall good dd) by (subst dd; rewrite Forall_map; apply Forall_forall; intros; apply good_dotdot).
-      (* render (dd ++ ["."]) = render dd ++ "/." *)
-      assert (Er : render_rel (dd ++ [s_dot]) = render_rel dd ++ sl :: s_dot).
-      { subst dd. cbn [map]. generalize (map (fun _ : str => s_dotdot) B') as l. intros l.
-        unfold render_rel. cbn [app]. revert x. generalize s_dotdot as z.
-        induction l as [|u l IHl]; intros z x0; [reflexivity|].
-        cbn [app intercalate]. destruct (l ++ [s_dot]) eqn:El; [destruct l; discriminate|].
-        rewrite <- El. specialize (IHl u x0). cbn [app] in IHl.
-        destruct l as [|u2 l']; [reflexivity|].
-        cbn [app] in *. rewrite <- app_comm_cons in *. rewrite <- app_assoc. cbn [app]. f_equal. f_equal. exact IHl. }
-      rewrite Er. destruct (render_rel_shape dd Hgd) as (y & r0 & Ey & Hy).
-      unfold join2. destruct root as [|y0 root'].
-      - rewrite Ey. rewrite <- Ey. rewrite comps_app, comps_render_rel by assumption. now rewrite app_nil_r.
-      - rewrite Ey. cbn [app]. rewrite <- Ey.
-        change (y0 :: root' ++ sl :: render_rel dd ++ sl :: s_dot) with ((y0 :: root') ++ sl :: (render_rel dd ++ sl :: s_dot)).
-        rewrite comps_app, comps_app, comps_render_rel by assumption. now rewrite app_nil_r. }
-    assert (Hroot : rooted (join2 root (render_rel (map (fun _ => s_dotdot) (x :: B') ++ [s_dot]))) = rooted root).
-    { unfold join2. destruct root as [|y0 root']; [|reflexivity].
-      exfalso. (* root = "" gives B = [] *) cbn in EBv. discriminate. }
-    rewrite Hroot, Hcomps. unfold clean_comps. rewrite fold_left_app, HstkB, map_const_repeat.
-    rewrite <- (rev_length (x :: B')), <- (app_nil_r (rev (x :: B'))), fold_push_pop by (now apply Forall_rev).
+    set (dd := map (fun _ : str => s_dotdot) (x :: B')).
+    assert (Hgd : Forall good dd) by (subst dd; rewrite Forall_map; apply Forall_forall; intros; apply good_dotdot).
+    destruct (join2_dot root dd Hgd ltac:(subst dd; discriminate)) as [Hcomps Hroot].
+    change (s_dotdot :: map (fun _ : str => s_dotdot) B' ++ [s_dot]) with (dd ++ [s_dot]).
+    rewrite Hroot, Hcomps. unfold clean_comps. rewrite fold_left_app, HstkB. subst dd. rewrite map_const_repeat.
+    rewrite fold_push_pop_all by assumption.
     cbn [rev drop_prefix]. now rewrite andb_false_r.
   - destruct (strip_common B T) as [b' t'] eqn:Esc.
     destruct (starts_dotdot b') eqn:Esb; [discriminate|]. injection Er as <-.
@@ -437,13 +459,24 @@ Proof.
     { apply Forall_app. split; [|assumption]. rewrite Forall_map. apply Forall_forall. intros; apply good_dotdot. }
     rewrite rooted_join2, comps_join2 by assumption.
     unfold clean_comps. rewrite !fold_left_app, HstkB, map_const_repeat.
-    rewrite EB at 1. rewrite rev_app_distr, <- (rev_length b'), fold_push_pop by (now apply Forall_rev).
-    rewrite (fold_push_suffix (rooted root) c t') by (now rewrite <- ET).
-    rewrite rev_involutive, <- ET. rewrite EB at 1. rewrite ET at 1. rewrite drop_prefix_common.
+    assert (Hstk2 : fold_left (push (rooted root)) (repeat s_dotdot (length b')) (rev B) = rev c).
+    { rewrite EB, rev_app_distr. now apply fold_push_pop_rev. }
+    rewrite Hstk2, (fold_push_suffix (rooted root) c t') by (now rewrite <- ET).
+    rewrite rev_involutive, EB, drop_prefix_common.
     destruct b' as [|x b''].
     + (* nothing left of the base: the reference itself starts with ".." *)
       cbn [map app] in Es. cbn [drop_prefix]. destruct t' as [|y t'']; [discriminate|].
       cbn [starts_dotdot] in Es. rewrite (forallb_head_dd y t'' Es). now rewrite andb_false_r.
     + pose proof (strip_common_max _ _ _ _ _ Esc) as Hmax. cbn [drop_prefix].
       destruct t' as [|y t'']; [now rewrite andb_false_r|]. rewrite Hmax. now rewrite andb_false_r.
+Qed.
+
+(** of the references the current code accepts, the repair keeps exactly those that resolve inside the root *)
+Theorem fix_exact : forall root p s, put true root p = Some s ->
+  (put false root p = Some s <-> inside root (resolved root s) = true).
+Proof.
+  intros root p s Hon. split.
+  - intros H. now apply put_inside in H.
+  - intros Hin. destruct (put_current_accepts root p s Hon) as [H|H]; [exact H|].
+    rewrite (put_rejected_outside root p s Hon H) in Hin. discriminate.
 Qed.
